@@ -60,7 +60,7 @@ _p("C09", ["instances", "profiling", "shexing"], ["pipeline"],
    "Deductive: two counting steps commute (lemma over the step contract of pass 2: same counters, same nodes, same class lists in either order); node and "
    "class names are opaque atoms in the verified counting code, so consistent renaming of blank nodes cannot be observed (parametricity of the accepted "
    "encoding); sorting is by probability with the group's members preserved. Permutations and relabelings of whole documents, and the choice under ties: " + MON)
-_p("C10", ["instances"], ["pipeline"],
+_p("C10", ["instances", "c10_targets"], ["pipeline"],
    "Deductive: relevance tests (predicate == instantiation property and (all classes or object among the target IRIs); model __eq__ methods inlined from the "
    "real source) and the per-triple step of pass 1 with whole-view frames (node->classes dictionary as a shared heap cell); rdf:type is an ordinary property "
    "under another instantiation property (_decide_type_elem). Selector parsing / SPARQL evaluation and the stream-level composition: " + MON)
@@ -75,9 +75,11 @@ _p("C13", ["shexing", "serializers", "c18_state", "plumbing"], ["pipeline"],
    "Deductive: the tuning pipeline rewrites exactly what each switch documents (cardinality after tuning = documented function of the cardinality and "
    "probability before; counts, kinds, properties never written; with every switch off nothing is written; disable_comments touches comments only; a "
    "disjunction keeps property, cardinality and figures). Presentation options and decimals rounding on whole runs: " + MON)
-_p("C14", ["instances", "profiling"], ["pipeline"],
+_p("C14", ["instances", "profiling", "c14_step"], ["pipeline"],
    "Deductive: the inverse counting step is the mirror of the direct one (same clause text on the third component, kind of the subject, shape kinds only "
-   "for IRI subjects) and leaves the outgoing features of the object untouched; both threshold filters carry the same contract. The three-run metamorphic "
+   "for IRI subjects) and leaves the outgoing features of the object untouched; the per-triple step of the inverse strategy is verified as the composition "
+   "'direct step on the subject if it is a tracked node + mirror step on the object if it is a tracked NODE (never a literal)' with frames over the whole "
+   "dictionary; both threshold filters carry the same contract. The three-run metamorphic "
    "relation (with / without inverse_paths / reversed graph): " + MON)
 _p("C15", ["c15_endpoint", "plumbing"], ["schemas"],
    "Deductive (under assumed SPARQL/HTTP contracts): per-node memoisation of the endpoint graph - the first request for a node and direction sends one "
